@@ -13,6 +13,10 @@ def short(name, n=2):
     return '::'.join(parts[-n:])
 
 
+# tuple_proj: rules that do not key on `tuple(..).N` descriptions switch this on (C28)
+OPTS = {'tuple_proj': False}
+
+
 def describe(o, depth=0, _guard=[0]):
     if o is None or depth > 8:
         return '?'
@@ -28,6 +32,15 @@ def describe(o, depth=0, _guard=[0]):
     if k in ('ref', 'cast'):
         return describe(o.base, depth)
     if k == 'place':
+        # field N of a tuple built on this path is the N-th operand: `(0u8, time).0` is `0u8`
+        base = o.base
+        while base is not None and base.kind in ('ref', 'cast'):
+            base = base.base
+        proj = [p for p in o.proj if p != '*']
+        if OPTS['tuple_proj'] and base is not None and base.kind == 'agg' and base.rv.get('kind') == 'tuple' and proj \
+                and re.match(r'^\.\d+$', proj[0]) and int(proj[0][1:]) < len(base.ops):
+            inner = base.ops[int(proj[0][1:])]
+            return describe(inner, depth) + ''.join(proj[1:])
         return describe(o.base, depth) + ''.join(p for p in o.proj if p != '*')
     if k in ('param', 'local'):
         return o.name
